@@ -250,7 +250,8 @@ func run(r *ev.Run) {
 	r.Rule(fmt.Sprintf("E3 complete product through the real HandleMsg6: message type byte 0..255 x client-id{absent,present} x rapid-commit x relay depth 0..%d x 9 per-layer variants (link/peer from {::,global,link-local}, {no option, Interface-ID, Interface-ID+Remote-ID}, distinct per layer) x peer{global, fe80::99, fe80:0:0:1::1, febf:ffff::1 (all link-local, fe80::/10), fec0::1 (not link-local)} x listener{bound,unbound} x control message{nil,ifindex} x chain{empty, option-adding handler}; plus Relay-Reply as outer type, mixed nesting, relay without inner message, every truncation of 2 seeds. Oracle on raw bytes with an independent parser. Class = chain/depth/type/cid/rapid/#replies/reply type.", maxDepth))
 	r.Assume("reply captured at WriteTo (no socket); mixed Relay-Forward/Relay-Reply nesting and requests without client-id are enumerated but only checked for 'no reply to unsupported types'")
 	// link-local unicast is fe80::/10: also sources with bits set between /10 and /64
-	peers := []string{"[2001:db8::99]:546", "[fe80::99]:5546", "[fe80:0:0:1::1]:546", "[febf:ffff::1]:546", "[fec0::1]:546"}
+	// source ports: client port, server/relay port, an ephemeral one, the extremes
+	peers := []string{"[2001:db8::99]:546", "[fe80::99]:5546", "[fe80:0:0:1::1]:546", "[febf:ffff::1]:546", "[fec0::1]:546", "[2001:db8::98]:547", "[2001:db8::97]:65535", "[fe80::96]:1"}
 	var wg sync.WaitGroup
 	sem := make(chan struct{}, 16)
 	for t := 0; t < 256; t++ {
